@@ -309,6 +309,15 @@ def shape_rules(rep: Report, prog: Program) -> None:
                 src_nodes = [l.iter] + [defs[x] for x in srcs if x in defs]
                 collapsing = [x for e in src_nodes for x in ast.walk(e)
                               if isinstance(x, (ast.Set, ast.SetComp, ast.DictComp)) or isinstance(x, ast.Call) and callee_last(x) in ('set', 'frozenset', 'fromkeys', 'OrderedDict', 'dict', 'unique')]
+                # ... and a list is filtered by the edge's own label only: `e not in ts1` removes the second copy of a shared edge
+                for e_ in src_nodes:
+                    for cmp_ in [x for x in ast.walk(e_) if isinstance(x, (ast.ListComp, ast.GeneratorExp, ast.SetComp))]:
+                        for g_ in cmp_.generators:
+                            tn_ = {t.id for t in ast.walk(g_.target) if isinstance(t, ast.Name)}
+                            for cond in g_.ifs:
+                                foreign = {x.id for x in ast.walk(cond) if isinstance(x, ast.Name)} - tn_
+                                if foreign & set(defs):
+                                    collapsing.append(cond)
                 rep.ob(rule, f.fq(), f"for {tv} in {norm(l.iter)[:60]}: every terminal edge counts once per rule", f.loc(l), not collapsing,
                        'the terminal edges of the two rules are concatenated' if not collapsing else
                        f"`{norm(collapsing[0])[:60]}` collapses equal edges: a terminal edge the two rules share contributes one factor instead of two")
